@@ -115,6 +115,7 @@ Lemma fn_hookHasDeletePolicy : fn_ok sites decisions "hookHasDeletePolicy". Proo
 Lemma fn_Configuration_outputLogsByPolicy : fn_ok sites decisions "Configuration.outputLogsByPolicy". Proof. fn_tac. Qed.
 Lemma fn_Configuration_releaseContent : fn_ok sites decisions "Configuration.releaseContent". Proof. fn_tac. Qed.
 Lemma fn_filterManifestsToKeep : fn_ok sites decisions "filterManifestsToKeep". Proof. fn_tac. Qed.
+Lemma fn_requireValue : fn_ok sites decisions "requireValue". Proof. fn_tac. Qed.
 Lemma fn_Storage_Create : fn_ok sites decisions "Storage.Create". Proof. fn_tac. Qed.
 Lemma fn_Storage_Deployed : fn_ok sites decisions "Storage.Deployed". Proof. fn_tac. Qed.
 Lemma fn_Storage_DeployedAll : fn_ok sites decisions "Storage.DeployedAll". Proof. fn_tac. Qed.
@@ -151,6 +152,7 @@ Proof.
      "Configuration.outputLogsByPolicy";
      "Configuration.releaseContent";
      "filterManifestsToKeep";
+     "requireValue";
      "Storage.Create";
      "Storage.Deployed";
      "Storage.DeployedAll";
@@ -183,6 +185,7 @@ Proof.
     (Forall_cons _ fn_Configuration_outputLogsByPolicy
     (Forall_cons _ fn_Configuration_releaseContent
     (Forall_cons _ fn_filterManifestsToKeep
+    (Forall_cons _ fn_requireValue
     (Forall_cons _ fn_Storage_Create
     (Forall_cons _ fn_Storage_Deployed
     (Forall_cons _ fn_Storage_DeployedAll
@@ -190,7 +193,7 @@ Proof.
     (Forall_cons _ fn_Storage_Last
     (Forall_cons _ fn_Status_IsPending
     (Forall_cons _ fn_ByRevision_Less
-    (Forall_nil _)))))))))))))))))))))))))))))))).
+    (Forall_nil _))))))))))))))))))))))))))))))))).
 Qed.
 
 (* the shape, as a plain equation between two computed lists (what [fn_ok] implies, stated
@@ -234,8 +237,8 @@ Qed.
 (* ---- examples: the obligation is not vacuous, and not syntactic --------------------------------- *)
 
 Lemma site_counts :
-  List.length (List.concat (map snd sites)) = 59 /\
-  List.length (filter modelled (List.concat (map snd sites))) = 41 /\ List.length sites = 31.
+  List.length (List.concat (map snd sites)) = 61 /\
+  List.length (filter modelled (List.concat (map snd sites))) = 43 /\ List.length sites = 32.
 Proof. vm_compute. repeat split. Qed.
 
 (* prepareUpgrade's `lastRelease.Info.Status == release.StatusDeployed` widened by
